@@ -11,7 +11,7 @@ import (
 
 func init() {
 	registerProperty(&Property{
-		ID: "C11",
+		ID:          "C11",
 		Explanation: "Decides structural necessary conditions of view transparency in package frame: (R1) every access to a column's storage — ops.Less/HashWithSeed/swap/Encode/Decode, val.Index/Slice, and pointer arithmetic on data.ptr — translates its row operand by +off of the frame whose data is addressed (scaled by the element size for pointer forms), the only untranslated accesses being those dominated by off == 0; (R2) Slice returns {off+i, j-i, cap-i} behind the bounds check, and grow/Ensure preserve rows; (R3) the untyped fast paths of assign run only under the matching size/pointer-ness facts and every other path reaches typedmemmove; (R4) frame.pointers and zero.isValueType list the same pointer-free kinds; (R5) codecs get exactly [off, off+len). Not decided: that sorting yields a permutation, step-by-step equivalence with a slice-of-rows model, memory safety of the runtime linknames.",
 		Rules: []Rule{
 			{ID: "C11-R1", Doc: "every storage access is offset-translated by the right frame", Run: c11r1},
